@@ -35,7 +35,8 @@ Definition spec_chk_nowords (c : opt_case) : bool := spec_chk_gen false c.
 
 
 def fixed_defs(ctx):
-    return "".join("Definition fx_%s : schema := %s.\n" % (ek, fixed_schema(ctx, ek).coq()) for ek in ELEMENTS)
+    return ("".join("Definition fx_%s : schema := %s.\n" % (ek, fixed_schema(ctx, ek).coq()) for ek in ELEMENTS) +
+            "".join("Definition tg_%s : schema := %s.\n" % (ek, targets_schema(ctx, ek).coq()) for ek in ELEMENTS))
 
 
 def generate(ctx, n_random, corpus_stride):
@@ -67,6 +68,16 @@ def generate(ctx, n_random, corpus_stride):
         for i, sts in enumerate(cs):
             if i % corpus_stride == others.index(ek) % corpus_stride or i >= len(cs) - 12:
                 cases.append(("corpus", fx(ek, sts)))
+    # 1b. target types: every step of a name and every spelling of a value against `targets` that exclude / include the
+    #     element kind; whole list on file, message and field, a rotating third on the other kinds (thorough: everywhere)
+    tsch = {ek: targets_schema(ctx, ek) for ek in eks}
+    tcs = targets_corpus()
+    for k, ek in enumerate(eks):
+        for i, sts in enumerate(tcs):
+            if ek in ("file", "message", "field") or corpus_stride == 1 or i % 3 == k % 3:
+                c = make_case(rng, ctx, ek, 0, fixed=(tsch[ek], sts))
+                c["sch_ref"] = "tg_" + ek
+                cases.append(("targets", c))
     # 2. random: scalars + paths + repeated first, then the rich schemas
     for i in range(n_random):
         ek = eks[i % len(eks)]
@@ -75,17 +86,91 @@ def generate(ctx, n_random, corpus_stride):
             cases.append(("random-scalar", make_case(rng, ctx, ek, rng.range(1, 5), rich=False, lits=False, wrong=4)))
         elif stage == 1:
             cases.append(("random-rich", make_case(rng, ctx, ek, rng.range(1, 4), rich=True, lits=True, wrong=3)))
-        else:
+        elif stage == 2:
             cases.append(("random-rich", make_case(rng, ctx, ek, rng.range(1, 6), rich=True, lits=True, wrong=12)))
+        else:
+            # every third field / extension (message-typed ones too) declares targets
+            cases.append(("random-targets", make_case(rng, ctx, ek, rng.range(1, 5), rich=True, lits=True, wrong=5, tdense=True)))
     return cases
+
+
+def escalate(ctx, broken, budget):
+    """The mirror model and the implementation disagree on the cases `broken` (strict error class, lenient or unlinked
+    run) while the strict outcome of each still agrees with the specification.  Search around them for an input on which
+    the property itself fails: every statement of a disagreeing case on its own (an earlier rejected statement hides the
+    later ones from the strict run), every respelling of it (name path <-> message literal), the case without each one of
+    its statements, then fresh random statements over the schemas of the disagreeing cases.  Every derived input is
+    run on the implementation and compared with the specification in coqc."""
+    rng = ctx.rng
+    derived, seen = [], set()
+
+    def add(c, sts):
+        k = (id(c["sch"]), tuple(stmt_coq(s) for s in sts))
+        if k in seen or len(derived) >= budget:
+            return
+        seen.add(k)
+        d = make_case(rng, ctx, c["sch"].ek, 0, fixed=(c["sch"], sts))
+        if c.get("sch_ref"):
+            d["sch_ref"] = c["sch_ref"]
+        derived.append(d)
+    for _, c, _ in broken:
+        seen.add((id(c["sch"]), tuple(stmt_coq(s) for s in c["stmts"])))
+    for _, c, _ in broken:
+        for st in c["stmts"]:
+            add(c, [st])
+    for _, c, _ in broken:
+        for st in c["stmts"]:
+            for st2 in respellings(st):
+                add(c, [st2])
+    for _, c, _ in broken:
+        if 2 <= len(c["stmts"]) <= 6:
+            for i in range(len(c["stmts"])):
+                add(c, c["stmts"][:i] + c["stmts"][i + 1:])
+    schs = []
+    for _, c, _ in broken:
+        if all(c["sch"] is not x["sch"] for x in schs):
+            schs.append(c)
+    i = 0
+    while schs and len(derived) < budget and i < 4 * budget:
+        c = schs[i % len(schs)]
+        i += 1
+        add(c, [rand_stmt(rng, c["sch"], wrong=3, lits=True)])
+    if not derived:
+        return 0
+    outs = ctx.impl("options", [d["input"] for d in derived])
+    terms, meta = [], []
+    for d, o in zip(derived, outs):
+        if "crash" in o or "panic" in o:
+            continue
+        try:
+            terms.append(case_term(d, o))
+        except Unmodelled:
+            continue
+        meta.append((d, o))
+        ctx.count((d["sch"].ek, d["sch"].coq(), tuple(stmt_coq(s) for s in d["stmts"])), True, "escalation")
+    res, err = coq_eval_multi("cases_C20e", HEADER, terms, ["spec_chk"], shard_size=ctx.budget(120, 400), defs=fixed_defs(ctx) + DEFS)
+    if err:
+        raise RuntimeError(err)
+    for i in res["spec_chk"]:
+        d, o = meta[i]
+        obs = {m: dict(o[m]) for m in ("strict", "strictm")}
+        what = "accepted although the specification rejects" if o["strictm"].get("ok") else "rejected (or other value) although the specification accepts"
+        ctx.violation("differs-from-protoc-spec", "implementation and protoc specification disagree: " + what +
+                      " (found by the search around a case on which mirror model and implementation disagree)",
+                      {"proto": d["files"]["t.proto"], "files": d["files"], "observed": obs})
+    return len(meta)
 
 
 def run(ctx):
     ctx.rule = ("a case = one generated file (custom-option schema + one target element of kind file/message/field/enum/enum value/"
                 "service/method/oneof/extension range carrying 1..6 option statements); corpus: boundary integers for every integer kind, "
                 "floats to ints and ints to floats, identifiers, enums by name and number, duplicates, oneofs, deep paths, lists vs repeated, "
-                "fields without presence, target types, extensions in paths and literals, on a fixed schema; random: staged schemas "
-                "(scalars/paths/repeated, then enums, literals, oneofs, extensions, targets); distinct = distinct (schema, element kind, "
+                "fields without presence, target types, extensions in paths and literals, on a fixed schema; target types at every step of a "
+                "name (first / middle / last part, simple and extension parts) and in every spelling (path, literal, nested literal, list) "
+                "against `targets` that exclude / include the element kind, on a second fixed schema; random: staged schemas "
+                "(scalars/paths/repeated, then enums, literals, oneofs, extensions, targets, then schemas where every third field - message-typed "
+                "ones too - declares targets); when mirror model and implementation disagree, a search around the disagreeing cases "
+                "(single statements, respellings, leave-one-out, random statements over the same schema) against the specification; distinct = distinct (schema, element kind, "
                 "statements); non-trivial = at least one statement")
     cases = generate(ctx, ctx.budget(550, 12000), ctx.budget(8, 1))
     outs = ctx.impl("options", [c["input"] for _, c in cases])
@@ -155,6 +240,7 @@ def run(ctx):
             what = "accepted although the specification rejects" if o["strictm"].get("ok") else "rejected (or other value) although the specification accepts"
             ctx.violation("differs-from-protoc-spec", "implementation and protoc specification disagree: " + what,
                           {"proto": text, "files": c["files"], "observed": obs})
+    broken = []
     for name, corr in (("opt_chk_strict", "options:interpretField/setOptionField/fieldValue (strict)"),
                        ("opt_chk_lenient", "options:interpretOptions (lenient)"),
                        ("opt_chk_unlinked", "options:interpretOptions (unlinked)")):
@@ -162,6 +248,11 @@ def run(ctx):
             klass, c, o = meta[i]
             ctx.corr_break(corr, {"proto": c["files"]["t.proto"], "files": c["files"]},
                            {m: o[m] for m in ("strictm", "lenient", "unlinked")})
+            if all(meta[i] is not b for b in broken):
+                broken.append(meta[i])
+    if broken and not spec_bad:
+        # correspondence broken but no input yet on which the property fails: look for one around the disagreeing cases
+        ctx.extra["escalation_cases"] = escalate(ctx, broken[:40], ctx.budget(300, 3000))
     ctx.extra["unmodelled_cases"] = unmodelled
     ctx.extra["panics_observed"] = panics
     if panics:
